@@ -5,6 +5,8 @@ export CARGO_NET_OFFLINE=true
 mkdir -p /verif/target /verif/evidence /verif/replays
 cd /verif/mc
 cargo build --release --offline --workspace 2>&1 | tail -3
+# second build: num-dual compiled with overflow checks and debug assertions (./check runs its quick tier first)
+cargo build --profile checked --offline --workspace 2>&1 | tail -3
 python3-vt /verif/audit/audit.py /verif/target/release/refaudit quick
 # the Python extension for C17 (dev profile; rebuilt incrementally by ./check C17)
 mkdir -p /verif/target/py/site
